@@ -155,9 +155,178 @@ run_value(const struct codec *c, uint64_t bits, unsigned *rot)
     cases_local++;
 }
 
+/* ---- memory that is not an array of characters: 16-bit words (what the register table stores into), 32- and 64-bit
+ * integers, floats and doubles as the caller's objects, written through the stores and read back through the caller's
+ * own type in the same function, and the other way round. The library may not assume that its argument is anything
+ * but octets: in an optimising build (the NDEBUG configuration is -O2) an access through the wrong effective type
+ * lets the compiler reorder or drop one side. Called from every codec unit, so every slice has it. ---- */
+#define PROBE_NOINLINE __attribute__((noinline))
+static PROBE_NOINLINE void
+probe_store_u32l(uint16_t *w, uint32_t value, uint16_t *out)
+{
+    w[0] = 0u;
+    w[1] = 0u;
+    bf_set_u32l(w, value);
+    out[0] = w[0];
+    out[1] = w[1];
+}
+static PROBE_NOINLINE void
+probe_store_u32b(uint16_t *w, uint32_t value, uint16_t *out)
+{
+    w[0] = 0xffffu;
+    w[1] = 0xffffu;
+    bf_set_u32b(w, value);
+    out[0] = w[0];
+    out[1] = w[1];
+}
+static PROBE_NOINLINE void
+probe_store_u16n(uint32_t *obj, uint16_t value, uint32_t *out)
+{
+    *obj = 0u;
+    bf_set_u16n(obj, value);
+    *out = *obj;
+}
+static PROBE_NOINLINE void
+probe_store_s64l(uint16_t *w, int64_t value, uint16_t *out)
+{
+    for (unsigned i = 0; i < 4; i++)
+        w[i] = 0u;
+    bf_set_s64l(w, value);
+    for (unsigned i = 0; i < 4; i++)
+        out[i] = w[i];
+}
+static PROBE_NOINLINE void
+probe_store_u64n(double *obj, uint64_t value, double *out)
+{
+    *obj = 1.0;
+    bf_set_u64n(obj, value);
+    *out = *obj;
+}
+static PROBE_NOINLINE void
+probe_store_f32b(uint16_t *w, float value, uint16_t *out)
+{
+    w[0] = 0x1234u;
+    w[1] = 0x5678u;
+    bf_set_f32b(w, value);
+    out[0] = w[0];
+    out[1] = w[1];
+}
+static PROBE_NOINLINE uint32_t
+probe_reload_u32l(uint16_t *w, uint16_t lo, uint16_t hi, uint32_t *first)
+{
+    *first = bf_ref_u32l(w);
+    w[0] = lo;
+    w[1] = hi;
+    return bf_ref_u32l(w);
+}
+static PROBE_NOINLINE uint64_t
+probe_reload_u64b(uint32_t *w, uint32_t a, uint32_t b, uint64_t *first)
+{
+    *first = bf_ref_u64b(w);
+    w[0] = a;
+    w[1] = b;
+    return bf_ref_u64b(w);
+}
+static PROBE_NOINLINE uint16_t
+probe_reload_u16n(float *obj, float nv, uint16_t *first)
+{
+    *first = bf_ref_u16n(obj);
+    *obj = nv;
+    return bf_ref_u16n(obj);
+}
+
+static void
+typed_memory_probe(uint64_t salt)
+{
+    /* expectations are built from octets (memcpy), never through another type */
+    unsigned char oct[8];
+    uint16_t w[4], out[4], ew[4];
+    const uint32_t v32 = 0x11223344u ^ (uint32_t)(salt * 0x01010101u);
+    oct[0] = (unsigned char)v32, oct[1] = (unsigned char)(v32 >> 8), oct[2] = (unsigned char)(v32 >> 16), oct[3] = (unsigned char)(v32 >> 24);
+    memcpy(ew, oct, 4);
+    probe_store_u32l(w, v32, out);
+    if (out[0] != ew[0] || out[1] != ew[1])
+        vh_fail("typed-memory", "part=set", "bf_set_u32l(%08x) into uint16_t[2], read back as words: %04x %04x expected %04x %04x", v32, out[0], out[1], ew[0], ew[1]);
+    unsigned char rev[4] = { oct[3], oct[2], oct[1], oct[0] };
+    memcpy(ew, rev, 4);
+    probe_store_u32b(w, v32, out);
+    if (out[0] != ew[0] || out[1] != ew[1])
+        vh_fail("typed-memory", "part=set", "bf_set_u32b(%08x) into uint16_t[2], read back as words: %04x %04x expected %04x %04x", v32, out[0], out[1], ew[0], ew[1]);
+    {
+        uint32_t obj, got, exp = 0;
+        uint16_t v16 = (uint16_t)(0xbeef ^ salt);
+        memcpy(&exp, &v16, 2);
+        probe_store_u16n(&obj, v16, &got);
+        if (got != exp)
+            vh_fail("typed-memory", "part=set", "bf_set_u16n(%04x) into a uint32_t, read back: %08x expected %08x", v16, got, exp);
+    }
+    {
+        const int64_t v64 = (int64_t)(0x8122334455667788ull ^ (salt << 8));
+        for (int i = 0; i < 8; i++)
+            oct[i] = (unsigned char)((uint64_t)v64 >> (8 * i));
+        memcpy(ew, oct, 8);
+        probe_store_s64l(w, v64, out);
+        if (memcmp(out, ew, 8) != 0)
+            vh_fail("typed-memory", "part=set", "bf_set_s64l(%016" PRIx64 ") into uint16_t[4], read back as words: %s expected %s", (uint64_t)v64,
+                    vh_hex(out, 8), vh_hex(ew, 8));
+        double obj, got, exp;
+        const uint64_t dv = 0x400921fb54442d18ull ^ (salt & 0xff);
+        memcpy(&exp, &dv, 8);
+        probe_store_u64n(&obj, dv, &got);
+        if (memcmp(&got, &exp, 8) != 0)
+            vh_fail("typed-memory", "part=set", "bf_set_u64n(%016" PRIx64 ") into a double, read back: %s", dv, vh_hex(&got, 8));
+    }
+    {
+        const float fv = 1.5f + (float)(salt & 7);
+        uint32_t fb;
+        memcpy(&fb, &fv, 4);
+        unsigned char fo[4] = { (unsigned char)(fb >> 24), (unsigned char)(fb >> 16), (unsigned char)(fb >> 8), (unsigned char)fb };
+        memcpy(ew, fo, 4);
+        probe_store_f32b(w, fv, out);
+        if (out[0] != ew[0] || out[1] != ew[1])
+            vh_fail("typed-memory", "part=set", "bf_set_f32b(%g) into uint16_t[2], read back as words: %04x %04x expected %04x %04x", (double)fv, out[0], out[1], ew[0], ew[1]);
+    }
+    {
+        /* loads: the caller rewrites its object through its own type between two loads */
+        uint16_t lw[2] = { 0x1111, 0x2222 };
+        uint32_t first = 0, second = probe_reload_u32l(lw, (uint16_t)(0x3344 ^ salt), 0x5566, &first);
+        unsigned char a[4], b[4];
+        uint16_t old[2] = { 0x1111, 0x2222 }, nw[2] = { (uint16_t)(0x3344 ^ salt), 0x5566 };
+        memcpy(a, old, 4);
+        memcpy(b, nw, 4);
+        uint32_t e1 = (uint32_t)a[0] | (uint32_t)a[1] << 8 | (uint32_t)a[2] << 16 | (uint32_t)a[3] << 24;
+        uint32_t e2 = (uint32_t)b[0] | (uint32_t)b[1] << 8 | (uint32_t)b[2] << 16 | (uint32_t)b[3] << 24;
+        if (first != e1 || second != e2)
+            vh_fail("typed-memory", "part=ref", "bf_ref_u32l on uint16_t[2] before/after the caller rewrote it: %08x %08x expected %08x %08x", first, second, e1, e2);
+        uint32_t qw[2] = { 0x01020304u, 0x05060708u };
+        uint64_t f64 = 0, s64 = probe_reload_u64b(qw, 0xa1a2a3a4u ^ (uint32_t)salt, 0xb1b2b3b4u, &f64);
+        uint32_t oldq[2] = { 0x01020304u, 0x05060708u }, nq[2] = { 0xa1a2a3a4u ^ (uint32_t)salt, 0xb1b2b3b4u };
+        unsigned char qa[8], qb[8];
+        memcpy(qa, oldq, 8);
+        memcpy(qb, nq, 8);
+        uint64_t x1 = 0, x2 = 0;
+        for (int i = 0; i < 8; i++) {
+            x1 = x1 << 8 | qa[i];
+            x2 = x2 << 8 | qb[i];
+        }
+        if (f64 != x1 || s64 != x2)
+            vh_fail("typed-memory", "part=ref", "bf_ref_u64b on uint32_t[2] before/after the caller rewrote it: %016" PRIx64 " %016" PRIx64 " expected %016" PRIx64 " %016" PRIx64,
+                    f64, s64, x1, x2);
+        float fo = 2.5f;
+        uint16_t h1 = 0, h2 = probe_reload_u16n(&fo, -7.25f - (float)(salt & 3), &h1), g1, g2;
+        float f1 = 2.5f, f2 = -7.25f - (float)(salt & 3);
+        memcpy(&g1, &f1, 2);
+        memcpy(&g2, &f2, 2);
+        if (h1 != g1 || h2 != g2)
+            vh_fail("typed-memory", "part=ref", "bf_ref_u16n on a float before/after the caller rewrote it: %04x %04x expected %04x %04x", h1, h2, g1, g2);
+    }
+    VH_COUNT("stores and loads on caller objects that are not character arrays");
+}
+
 static void
 u_codec(uint64_t idx, void *arg)
 {
+    typed_memory_probe(idx);
     const struct codec *c = &codecs[((struct job *)arg)->codec];
     const int w = c->width;
     vh_rng r;
@@ -469,6 +638,7 @@ harness_run(void)
         vh_unit("range", i, u_range, NULL);
     vh_require("store/load cases compared");
     vh_require("swap values compared");
+    vh_require("stores and loads on caller objects that are not character arrays");
     vh_require("range predicate values compared");
     vh_require("enumerated chunk w=16");
     vh_require("enumerated chunk w=24");
